@@ -9,7 +9,7 @@ def p_parts():
     from ._cats import p_cats
     from ._handles import p_handles
     from ._generic import optional_parts
-    return [p_typemap, p_cats, p_handles] + optional_parts(("_makemeta", "p_makemeta"), ("_readoptions", "p_readoptions"), ("_pages", "p_catlabels"))
+    return [p_typemap, p_cats, p_handles] + optional_parts(("_makemeta", "p_makemeta"), ("_readoptions", "p_readoptions"), ("_pages", "p_catlabels"), ("_pathconv", "p_read_partitions"))
 
 
 def run(ctx):
